@@ -163,7 +163,8 @@ pub(crate) fn lex_between<'a>(
             break;
         };
         if first_char.is_whitespace() {
-            offset += 1;
+            // Whitespace isn't necessarily a single byte (e.g. U+00A0).
+            offset += first_char.len_utf8();
             continue;
         }
 
@@ -359,26 +360,28 @@ pub(crate) fn lex_between<'a>(
             offset += variable_match.end();
         } else {
             let (line_number, column) = lp.from_offset(offset);
+            // Skip the whole character, which may be several bytes.
+            let width = first_char.len_utf8();
 
             errors.push(ParseError::Invalid {
                 position: Position {
                     start_offset: offset,
-                    end_offset: offset + 1,
+                    end_offset: offset + width,
                     line_number: line_number.as_usize(),
                     end_line_number: line_number.as_usize(),
                     column,
-                    end_column: column + 1,
+                    end_column: column + width,
                     path: Rc::clone(&vfs_path.path),
                     vfs_path: vfs_path.clone(),
                 },
                 message: ErrorMessage(vec![
                     msgtext!("Unrecognized syntax "),
-                    msgcode!("{}", &s[0..1]),
+                    msgcode!("{}", first_char),
                 ]),
                 notes: vec![],
             });
 
-            offset += 1;
+            offset += width;
         }
     }
 
